@@ -46,4 +46,53 @@ theorem convert_monotone : convert_monotone_statement := by
   · have := ha2 b (by omega)
     omega
 
+/-! ### the hypotheses are satisfiable, and the added ones are needed -/
+
+example : TableWF zEx ∧ CivilCols zEx ∧ Separated zEx ∧ TimesInRange zEx ∧ FirstEntryRoom zEx ∧
+    Valid ⟨1970, 1, 12, 14, 0, 0⟩ ∧ Valid ⟨1970, 1, 24, 4, 0, 0⟩ ∧
+    NoShift zEx ⟨1970, 1, 12, 14, 0, 0⟩ ∧ NoShift zEx ⟨1970, 1, 24, 4, 0, 0⟩ ∧
+    secNum ⟨1970, 1, 12, 14, 0, 0⟩ < secNum ⟨1970, 1, 24, 4, 0, 0⟩ :=
+  ⟨zEx_wf, zEx_cols, zEx_sep, zEx_tir, zEx_fer, by decide, by decide, Or.inl rfl, Or.inl rfl, by decide⟩
+/-- in the gap, then in the overlap -/
+example : (convert zEx 0 ⟨1970, 1, 12, 14, 0, 0⟩).val.1 = 1000000 ∧
+    (convert zEx 5 ⟨1970, 1, 24, 4, 0, 0⟩).val.1 = 1998000 := by decide +kernel
+
+/-- without `TimesInRange` (but with `FirstEntryRoom`) order is not preserved: on a table whose
+only entry is at 2^63 + 10 the civil second just before the entry converts to 2^63 + 9, a later
+one to max() -/
+theorem convert_monotone_needs_TimesInRange :
+    ¬ (∀ (z : Zone) (h1 h2 : Nat) (cs1 cs2 : Fields), TableWF z → CivilCols z → Separated z →
+      FirstEntryRoom z →
+      Valid cs1 → Valid cs2 → NoShift z cs1 → NoShift z cs2 → secNum cs1 < secNum cs2 →
+      (convert z h1 cs1).val.1 ≤ (convert z h2 cs2).val.1) := by
+  intro H
+  have h := H zBig 0 0 ⟨292277026596, 12, 4, 15, 30, 17⟩ ⟨292277026596, 12, 4, 15, 31, 58⟩
+    zBig_wf zBig_cols zBig_sep (by unfold FirstEntryRoom; decide +kernel) (by decide) (by decide)
+    (Or.inl rfl) (Or.inl rfl) (by decide +kernel)
+  revert h
+  decide +kernel
+
+/-- without `FirstEntryRoom` (but with `TimesInRange`) order is not preserved: the table `zLow`
+sets the clock back an hour 100 s after min(); the last civil second before the overlap converts to
+min() (saturated), the first second of the overlap to min() - 3500 (`MakeRepeated`'s `pre`, a signed
+overflow in the C++) -/
+theorem convert_monotone_needs_FirstEntryRoom :
+    ¬ (∀ (z : Zone) (h1 h2 : Nat) (cs1 cs2 : Fields), TableWF z → CivilCols z → Separated z →
+      TimesInRange z →
+      Valid cs1 → Valid cs2 → NoShift z cs1 → NoShift z cs2 → secNum cs1 < secNum cs2 →
+      (convert z h1 cs1).val.1 ≤ (convert z h2 cs2).val.1) := by
+  intro H
+  have h := H zLow 0 0 ⟨-292277022657, 1, 27, 8, 31, 31⟩ ⟨-292277022657, 1, 27, 8, 31, 32⟩
+    zLow_wf zLow_cols zLow_sep zLow_tir (by decide) (by decide)
+    (Or.inl rfl) (Or.inl rfl) (by decide +kernel)
+  revert h
+  decide +kernel
+
+/-- … and the C++ computation of that `pre` does overflow (the model raises the flag) -/
+theorem zLow_makeRepeated_overflows :
+    (Tz.makeTime zLow 0 ⟨-292277022657, 1, 27, 8, 31, 32⟩).flags.ovf = true ∧
+    (Tz.makeTime zLow 0 ⟨-292277022657, 1, 27, 8, 31, 32⟩).val.1 =
+      ⟨.repeated, -9223372036854779308, -9223372036854775708, -9223372036854775708⟩ := by
+  decide +kernel
+
 end Cctz.C06
